@@ -2,6 +2,7 @@
 import copy
 
 from mc import core, spaces
+from mc.props import common
 from mc.oracles import pda, cfg
 
 
@@ -171,6 +172,15 @@ def t_replace(acc, L, shard, nshard, stride, offset, with_cfg=False):
             check(acc, spec, L, ('x', 'y'), 's', '_', with_cfg)
 
 
+def t_family(acc, family, L, shard, nshard, stack=('x', 'y'), scheme='s', eps='_', with_cfg=True):
+    """Thin families of mc.oracles.pda / mc.props.c09 (wave 5)."""
+    from mc.props import c09
+    gen = {'noop': pda.noop_family, 'multichar': c09.multichar_family, 'cyc': lambda: pda.cyc_family(3), 'cycfront': lambda: pda.cyc_family(3, front=True)}[family]()
+    for idx, spec in gen:
+        if idx % nshard == shard:
+            check(acc, spec, L, tuple(stack), scheme, eps, with_cfg)
+
+
 def t_space(acc, n, k, g, t, L, shard, nshard, stride=1, offset=0, stack=('x', 'y'), scheme='s', eps='_', with_cfg=True, fbits=None, tmin=0):
     for idx, spec in pda.pdas(n, k, g, t, fbits=fbits, tmin=tmin):
         if idx % stride == offset % stride and (idx // stride) % nshard == shard:
@@ -191,6 +201,17 @@ def plan(tier, seed):
     add(1, 1, 1, 3, 3, 1, stack=['$'], eps='ε')
     add(1, 1, 1, 3, 3, 1, stack=['∅'], eps='')
     add(1, 1, 1, 3, 3, 1, scheme='p')
+    F = 'mc.props.c10:t_family'
+    tasks.extend(('plain', F, {'family': 'noop', 'L': 4, 'shard': s_, 'nshard': 8, 'with_cfg': s_ % 4 == 0}) for s_ in range(8))
+    tasks.append(('plain', F, {'family': 'multichar', 'L': 3, 'shard': 0, 'nshard': 1, 'stack': ['A', 'B', 'AB']}))
+    tasks.append(('plain', F, {'family': 'multichar', 'L': 3, 'shard': 0, 'nshard': 1, 'stack': ['Z0', 'Z', '0']}))
+    tasks.append(('plain', F, {'family': 'cyc', 'L': 1, 'shard': 0, 'nshard': 1, 'stack': ['γ', 'Ω'], 'scheme': 'u', 'with_cfg': False}))
+    tasks.append(('plain', F, {'family': 'cycfront', 'L': 2, 'shard': 0, 'nshard': 1, 'with_cfg': False}))
+    add(1, 1, 1, 3, 3, 1, stack=['γ'], scheme='u')
+    add(2, 1, 1, 2, 3, 4, stride=4, stack=['Z0'], scheme='g')
+    base = list(tasks)
+    for kn in ({'dorder': 'aq'}, {'dorder': 'rev'}):
+        tasks += common.knob_copies(base, lambda name, p: name.endswith('t_space') and p['n'] == 1 or (name.endswith('t_family') and p['family'] == 'multichar'), kn)
     if tier == 'quick':
         add(2, 1, 1, 2, 4, 16)
         add(2, 1, 1, 3, 4, 32, stride=16, tmin=3)
@@ -214,4 +235,4 @@ def plan(tier, seed):
         bounds = 'replace family all (30 720); PDA(2,1,1,<=3) all (PDA->CFG on stride 1/4); PDA(2,2,1,<=2) (PDA->CFG 1/2), PDA(2,1,2,<=2); Gamma with $ / ∅ and colliding state names stride 1/4; PDA(3,1,1,<=2) with |F| in {2,3}'
     return {'tasks': tasks, 'bounds': {'spaces': bounds}, 'exhaustive': True,
             'rule': 'every labelled PDA in the bounds x {single accepting state, push/pop form, accept on empty stack, PDA->CFG (and with accepts_on_empty_stack=True when the oracle shows the precondition)}; languages by saturation (PDA) / least fixpoint (CFG) on all words up to L; non-trivial = PDA with non-empty language that accepts with a non-empty stack',
-            'assumptions': ['CFG/PDA equivalence compared on all words up to the stated length', 'delta is a defaultdict(set) as built by the parser']}
+            'assumptions': ['CFG/PDA equivalence compared on all words up to the stated length', 'delta is a defaultdict(set) as built by the parser', 'wave 5: counters written as PDAs with 12-14 moves that neither push nor pop (12+ generated intermediate states), stack symbols of several characters (A, B, AB / Z0, Z, 0) and outside latin-1 (constructor-built PDAs), coprime push/pop epsilon cycles with <= 3 states each, transition dict filled in other orders; every name is an equal but distinct str object']}
